@@ -258,7 +258,7 @@ def _helper_cases(draw, tier):
 def check_helper(case, ctx):
     d = case["defn"]
     p, kv, n = d["degree"][0], list(d["kv"][0]), d["size"][0]
-    ins = (["in"] + list(case["ins"][1:])) if case["ins"][0] == "near" else case["ins"]
+    ins = (["in"] + list(case["ins"][1:])) if case["ins"][0] in ("near", "within") else case["ins"]
     pick = pick_insert(p, kv, n, ins)
     if pick is None:
         ctx.label("no-op-case")
